@@ -9,14 +9,18 @@ from vf.common import Acc, h
 ID = "C26"
 LEVEL = "exploration"
 VCLOCK = True
-TECHNIQUE = ("runtime monitoring: (a) real in-process server stack with senders placed exactly on / around the release instant, concurrent senders, restarts "
-             "and seeded yields at the store's async boundaries — monitors: live control loops per run (<=1), runner snapshot at every release (must be truly idle), "
-             "conservation of sent event ids; (b) real SqliteRunLifecycleLock driven by concurrent release / resume / crash-timeout scripts against the 3-state machine")
+TECHNIQUE = ("runtime monitoring: (a) real server stacks (in-process; DBOS chain over a substitute engine) with senders placed exactly on / around the release "
+             "instant, concurrent senders, restarts, seeded yields and virtual latency at the store's async boundaries, internal wake-ups inside the release "
+             "handler's store round trip — monitors: live control loops per run (<=1), runner snapshot at every release (must be truly idle), conservation of "
+             "sent event ids; (b) real SqliteRunLifecycleLock driven by concurrent release / resume / crash-timeout scripts against the 3-state machine")
 LEVEL_TEXT = ("Senders at t_release-eps, t_release, t_release+eps under a virtual clock (exact instants), duplicates and concurrent senders, process restarts "
               "racing sends, yield injection where the Postgres store would suspend; the lifecycle lock is checked as: per released period exactly one "
               "try_begin_resume returns 'released', state only moves active->releasing->released->active (or the documented crash-timeout takeover).")
-LEVEL_NOTE = ("In-process stack + the DBOS SQLite lifecycle lock as a component (one lock object per process, as the DBOS runtime uses it). Cross-replica delivery "
-              "through the real DBOS runtime cannot run here (dbos package absent). A multi-lock-object thread stress on one SQLite file is reported as information only.")
+LEVEL_NOTE = ("In-process stack, and the DBOS server stack with the ENGINE SUBSTITUTED: the real DBOSIdleReleaseDecorator / EventInterceptorDecorator / "
+              "TickPersistenceDecorator / SqliteRunLifecycleLock chain (as DBOSRuntime.build_server_runtime wires it) over a BasicRuntime, single replica; the "
+              "lifecycle lock additionally as a component against its 3-state machine. Store calls take virtual latency in part of the scenarios (networked "
+              "store). Not decided: DBOS's own message durability / recovery and cross-replica interleavings (dbos package absent). A multi-lock-object "
+              "thread stress on one SQLite file is reported as information only.")
 DESIGN_REF = "§5 C26"
 RULE = "case = (program, idle_timeout, send/restart schedule, yield seed) or (lifecycle script); distinct = hash of the scenario; non-trivial = >=1 release and >=1 send at/after it"
 REQUIRED_REACH = ["scenario", "release_snapshot_eval", "send_at_release_instant", "concurrent_senders", "restart_scenario", "conservation_eval", "slow_store", "stack_inproc", "stack_dbos_sub", "wake_scenario", "waiter_timeout_inside_release_round_trip", "lifecycle_script", "lifecycle_stalled_releaser",
